@@ -141,7 +141,9 @@ func runC03(r *oblig.Report) {
 	r.Rule("C03.4", "instance-table", "rewrite stack discipline", 3)
 	r.Rule("R8.8", "instance-table", "layout vocabulary accepted by the embedded automata", 20)
 	r.Rule("R8.9", "instance-table", "the embedded parser automaton derives one token sequence per layout the property enumerates", 9)
-	e9pos.PrePassShape(c.P, r, "R9.1")
+	pp := e9pos.PrePassShape(c.P, r, "R9.1")
+	r.Rule("R9.1t", "instance-table", "every blank of the lexer that is not a line end, and CR, is trimmed from the end of each line (no WHITESPACE token in front of EOF)", 3)
+	e9pos.TrimCoversBlanks(r, "R9.1t", w.LexerG, pp)
 	r.Rule("C03.7", "instance-table", "model objects a listener callback stores are built from its own parse-tree node, not fetched from a table kept across declarations", 8)
 	e5path.BuiltFromOwnContext(c.P, r, "C03.7", fs)
 	e1variants.ListenerOverrides(c.P, r, "R1.5")
